@@ -462,14 +462,19 @@ def main(tier):
     states += fs_
     trans += fg_
     validated += fval
+    from checks import c11_query
+    qs_, qg_, qn = c11_query.stage(V, tier, rng)
+    states += qs_
+    trans += qg_
+    validated += qn
     lem = lemmas()
     cov = {'states': states, 'transitions': trans, 'unbounded_window_lemmas_apalache': lem,
            'traces_validated_against_impl': V.counters.get('p1_conform', 0) + validated,
-           'behaviours_exported': len(exported), 'chains_exported': len(chains), 'batch_lists_exported': lexp, 'tag_forms_exported': fexp,
+           'behaviours_exported': len(exported), 'chains_exported': len(chains), 'batch_lists_exported': lexp, 'tag_forms_exported': fexp, 'query_strings': qn, 'query_text_drift_samples': V.notes.get('query_text_drift', []),
            'exhaustive': True, 'bounds': {'window': b, 'navigation': nb},
            'samples': [exported[0], exported[len(exported) // 2], chains[len(chains) // 2][1]] if exported and chains else ['none'],
            'clauses': ['Renders', 'InRange', 'Ends', 'Explicit', 'NextIff', 'PrevIff', 'NextStart',
-                       'PrevEnd', 'Flags', 'Tiles', 'Back', 'NextBatches', 'PreviousBatches', 'PreviousForm', 'NextForm']}
+                       'PrevEnd', 'Flags', 'Tiles', 'Back', 'NextBatches', 'PreviousBatches', 'PreviousForm', 'NextForm', 'QueryLinks']}
     return V.finish(cov, assumptions=[
         'parameters are ints or numeric strings; sequences are lists/tuples of ints; some renderings carry reverse / reverse_expr / an empty sort_expr (the window arithmetic is the same)',
         'announced neighbours are specified modulo clamping into 1..L (DESIGN C11)'])
